@@ -72,7 +72,14 @@ def check(case):
             psi_p = R.psi_ref(am, ph, V)
             rho_prec = psi_p[:, None] * psi_p.conj()[None, :]
             rho_prec = rho_prec / rho_prec.diagonal().real.sum()
+    prec_abs = 1e-11 + (1e-14 / max(gen.min_aux_factor(sc), 1e-12) if sc["type"] == "density" else 0.0)      # see c02.py
     ops = dense_ops(n)
+    # magnitude of the terms a local estimator sums for basis state v: sum_j |rho(v^j, v)| / rho(v, v) / n (v^j = v with site j flipped).  Two
+    # evaluations of the same estimator on differently composed batches may round differently by eps * this magnitude (the terms can exceed
+    # the estimator's value by many orders of magnitude when amplitude ratios are huge and the phases nearly cancel)
+    ar = rho_prec.abs()
+    flips = [[R.row_to_index([b ^ (1 if jj == j else 0) for jj, b in enumerate(R.index_to_row(i, n))]) for j in range(n)] for i in range(2 ** n)]
+    term_mag = torch.tensor([sum(float(ar[f, i]) for f in flips[i]) / (n * float(ar[i, i]) + 1e-300) for i in range(2 ** n)], dtype=torch.double)
     obs = [("X", lambda a: SigmaX(absolute=a)), ("Y", lambda a: SigmaY(absolute=a)), ("Z", lambda a: SigmaZ(absolute=a))]
     ey = None
     idx = case["idx"]
@@ -91,7 +98,7 @@ def check(case):
         require(abs(est - float(ref.real)) <= 1e-7, f"biased:Sigma{key}",
                 f"exact average of Sigma{key} per-sample values = {est:.10f}, but tr(rho {key}) = {float(ref.real):.10f}", imag=float(ref.imag))
         ref_p = float(torch.trace(rho_prec @ ops[key]).real)
-        require(abs(est - ref_p) <= 1e-11, f"precision:Sigma{key}", f"exact average of Sigma{key} per-sample values is not accurate to double precision: {est!r} vs tr(rho {key}) = {ref_p!r}")
+        require(abs(est - ref_p) <= prec_abs, f"precision:Sigma{key}", f"exact average of Sigma{key} per-sample values is not accurate to double precision: {est!r} vs tr(rho {key}) = {ref_p!r}")
         if key == "Y":
             ey = float(ref.real)
         av = mk(True).apply(state, space.clone())
@@ -101,14 +108,14 @@ def check(case):
         third = shared.apply(state, space.clone())                         # ... and third use, on the full space again
         require(bool(torch.all((third.double() - vals.double()).abs() <= 1e-12 * (1 + vals.double().abs()))), f"reuse:{key}",
                 f"the third application of the same Sigma{key} object differs from its first")
-        require(tuple(sub.shape) == (len(idx),) and bool(torch.all((sub.double() - vals.double()[idx]).abs() <= 1e-9 * (1 + vals.double()[idx].abs()))),
+        require(tuple(sub.shape) == (len(idx),) and bool(torch.all((sub.double() - vals.double()[idx]).abs() <= 1e-9 * (1 + vals.double()[idx].abs()) + 1e-12 * term_mag[idx])),
                 f"pointwise:{key}", f"Sigma{key}.apply on a sub-batch differs from the rows of the full evaluation")
         # the caller's sample buffer filled in place with other configurations between two calls (e.g. chains advanced in place)
         buf = space.clone()
         shared.apply(state, buf)
         buf.copy_(space.flip(0))
         vb = shared.apply(state, buf).double()
-        require(bool(torch.all((vb - vals.double().flip(0)).abs() <= 1e-12 * (1 + vals.double().abs().flip(0)))), f"buffer-refilled-in-place:{key}",
+        require(bool(torch.all((vb - vals.double().flip(0)).abs() <= 1e-12 * (1 + vals.double().abs().flip(0)) + 1e-12 * term_mag.flip(0))), f"buffer-refilled-in-place:{key}",
                 f"Sigma{key}.apply on a sample tensor that was refilled in place does not follow the tensor's current contents")
         # signed -> absolute -> signed on the SAME batch, back to back (no other batch in between), by two objects of the same class
         av2 = mk(True).apply(state, space.clone())
@@ -130,7 +137,7 @@ def check(case):
             est = float((p * vals.double()).sum())
             ref = float(torch.trace(rho @ ops[("NI", c, pbc)]).real)
             ref_p = float(torch.trace(rho_prec @ ops[("NI", c, pbc)]).real)
-            require(abs(est - ref_p) <= 1e-11, "precision:NeighbourInteraction", f"NeighbourInteraction(c={c}, periodic={pbc}) average is not accurate to double precision: {est!r} vs {ref_p!r}")
+            require(abs(est - ref_p) <= prec_abs, "precision:NeighbourInteraction", f"NeighbourInteraction(c={c}, periodic={pbc}) average is not accurate to double precision: {est!r} vs {ref_p!r}")
             require(abs(est - ref) <= 1e-7, f"biased:NeighbourInteraction(pbc={pbc})",
                     f"NeighbourInteraction(c={c}, periodic={pbc}) averages to {est:.10f}, operator expectation is {ref:.10f} (n={n})")
     nt = gen.all_biases_nonzero(sc) and (sc["type"] == "positive" or abs(ey) > 1e-6)
